@@ -23,7 +23,9 @@ INTS = [0, 1, -1, 2, 255, 256, 65535, 65536, 2 ** 31 - 1, 2 ** 31, -2 ** 31, 2 *
 FLOATS = [0.0, -0.0, 1.0, -1.0, 1.5, 0.1, 1e22, 1e-7, 5e-324, 1.7976931348623157e308, 2.0 ** 53, 2.0 ** 53 + 2, 9007199254740993.0,
           INF, -INF, NAN_Q, NAN_NEG, NAN_PAYLOAD, NAN_S, 1e16, 123456789012345678.0, 3.141592653589793]
 STRS = ["", "a", "abc", "é", "\U0001f600", "\ud800", "\udc80x", "x\udfff", "𐀀", "a\x00b", "q" * 300, "'quote\"s\\",
-        "\n\t\r", "  ", "{\"string\": 1}", "nan", "int", "\x7f\x80"]
+        "\n\t\r", "  ", "{\"string\": 1}", "nan", "int", "\x7f\x80",
+        # lone surrogate next to characters that entered Unicode in 12.0 / 13.0 / 14.0 / 15.0 (printable on newer hosts only)
+        "\udc80\U0001fa70", "\ud800\U0001fad6", "\udfff\U0001fae0\U0001fae8", "\ud800\u0870\U0001e030"]
 BYTES = [b"", b"a", b"\xff\x00", bytes(bytearray(range(256))), b"abc" * 50, b"'\"\\"]
 COMPLEX = [0j, complex(0.0, -0.0), complex(-0.0, 0.0), complex(-0.0, -0.0), 1j, complex(1.5, -2.5), complex(NAN_Q, INF),
            complex(INF, -INF), complex(NAN_NEG, NAN_PAYLOAD), complex(1e308, -5e-324), complex(2.0 ** 53 + 2, 0.1)]
